@@ -15,7 +15,7 @@ func runC12NewCells(x *X) {
 	keys := []interface{}{pkey("k1"), pkey("k2")}
 	keyNames := []string{"k1", "k2"}
 	depth := x.Pick(5, 6)
-	x.Explore("new-cells-start-empty", ExploreOpts{ShardDepth: 2, Bound: fmt.Sprintf("table header(t,u) + row(t,u); all sequences of <=%d operations {set k1/k2 on the last row's first/second cell or on the last row itself (separators too), AddRowItems(t,u) again, AddRowItems(u,t), AddRowItems(other), AddSeparator, AppendNewRow+Add(t), AddHeaders(t,u) again, render pass, Update() on a cell}; every cell read for both keys after each step", depth)}, func(c *Chooser) {
+	x.Explore("new-cells-start-empty", ExploreOpts{ShardDepth: 2, Bound: fmt.Sprintf("table header(t,u) + row(t,u); all sequences of <=%d operations {set k1/k2 on the last row's first/second cell or on the last row itself (separators too), AddRowItems(t,u) again, AddRowItems(u,t), AddRowItems(other), AddSeparator, AppendNewRow+Add(t), AddHeaders(t,u) again, render pass, Update() on a cell, two NewRowSizedFor rows (the first over-filled), set on the last cell of the second-to-last row}; every cell read for both keys after each step", depth)}, func(c *Chooser) {
 		t := tabular.New()
 		t.AddHeaders("t", "u")
 		t.AddRowItems("t", "u")
@@ -85,7 +85,7 @@ func runC12NewCells(x *X) {
 		var ops []string
 		sets := 0
 		for step := 0; step < depth; step++ {
-			k := c.Choose(14)
+			k := c.Choose(17)
 			if k == 0 {
 				break
 			}
@@ -104,6 +104,42 @@ func runC12NewCells(x *X) {
 				name = fmt.Sprintf("%s.SetProperty(%s, %s)", row[ci].name, keyNames[ki], v)
 				row[ci].get().SetProperty(keys[ki], v)
 				row[ci].model[keys[ki]] = v
+			case 14:
+				// two rows obtained from the table back to back (sized for its current width); the first gets one cell more
+				// than that, the second a single cell; both are then attached
+				name = "ra, rb := t.NewRowSizedFor(), t.NewRowSizedFor(); ra gets NColumns+1 cells, rb one; AddRow(ra); AddRow(rb)"
+				ra, rb := t.NewRowSizedFor(), t.NewRowSizedFor()
+				for i := 0; i <= t.NColumns(); i++ {
+					ra.Add(tabular.NewCell(fmt.Sprintf("a%d", i)))
+				}
+				rb.Add(tabular.NewCell("b0"))
+				t.AddRow(ra)
+				t.AddRow(rb)
+			case 15, 16:
+				// a property on the LAST cell of the second-to-last cell row
+				rr := t.AllRows()
+				seen := 0
+				for i := len(rr) - 1; i >= 0 && name == ""; i-- {
+					if rr[i].IsSeparator() || len(rr[i].Cells()) == 0 {
+						continue
+					}
+					seen++
+					if seen == 2 {
+						cn := fmt.Sprintf("cell(%d,%d)", i+1, len(rr[i].Cells()))
+						for _, o := range owners {
+							if o.name == cn {
+								sets++
+								v := fmt.Sprintf("v%d", sets)
+								name = fmt.Sprintf("%s.SetProperty(%s, %s)", cn, keyNames[k-15], v)
+								o.get().SetProperty(keys[k-15], v)
+								o.model[keys[k-15]] = v
+							}
+						}
+					}
+				}
+				if name == "" {
+					name = "(no second-to-last cell row)"
+				}
 			case 13:
 				// Update() re-reads the cell's item; it has nothing to do with the cell's properties
 				row := lastCellRow()
